@@ -23,7 +23,7 @@ from acnportal.acnsim.models import EV, Battery
 from acnportal.acnsim.models.evse import EVSE, DeadbandEVSE, FiniteRatesEVSE, InvalidRateError, StationOccupiedError
 from acnportal.acnsim.network import ChargingNetwork
 
-from mc.core import Acc
+from mc.core import Acc, guard
 from mc import simspace as S
 
 ID = "C13"
@@ -174,6 +174,7 @@ def probe(kind, p, pilot, occupied, entry):
             after = (evse.current_pilot, ev_state(ev), evse.ev)
             return False, before == after and before[2] is after[2], evse.current_pilot, "InvalidRateError", evse
         except Exception as exc:
+            guard(exc)
             return False, False, evse.current_pilot, type(exc).__name__, evse
     else:
         net = ChargingNetwork()
@@ -194,11 +195,15 @@ def probe(kind, p, pilot, occupied, entry):
             after = (evse.current_pilot, ev_state(ev), evse.ev)
             return False, before == after and before[2] is after[2], evse.current_pilot, "InvalidRateError", evse
         except Exception as exc:
+            guard(exc)
             return False, False, evse.current_pilot, type(exc).__name__, evse
 
 
-def advertised(kind, p):
-    """every (source, value) the EVSE / network / interface advertises to schedulers"""
+def advertised(kind, p, mode="direct"):
+    """every (source, value) the EVSE / network / interface advertises to schedulers.
+    mode "direct": a two-station network; "json": a three-station network registered in NON-alphabetical order with
+    different limits per station, dumped and re-loaded before it is asked; "mutated": that network, asked once
+    through the Interface by a caller that overwrites every array it was handed, then asked again."""
     out = []
     evse = build(kind, p)
     out.append(("evse.max_rate", evse.max_rate))
@@ -206,8 +211,35 @@ def advertised(kind, p):
     for v in evse.allowable_pilot_signals:
         out.append(("evse.allowable_pilot_signals", v))
     net = ChargingNetwork()
-    net.register_evse(EVSE("PS-0", max_rate=32), 208, 0)
-    net.register_evse(evse, 208, 0)
+    if mode == "direct":
+        net.register_evse(EVSE("PS-0", max_rate=32), 208, 0)
+        net.register_evse(evse, 208, 0)
+    else:
+        net.register_evse(evse, 240, 120)  # PS-X first: every re-ordering of the three ids moves it
+        net.register_evse(EVSE("PS-Z", max_rate=80), 208, 0)
+        net.register_evse(FiniteRatesEVSE("PS-A", [7, 13]), 120, -120)
+    if mode == "json":
+        with warnings.catch_warnings():
+            warnings.simplefilter("ignore")
+            net = ChargingNetwork.from_json(net.to_json())
+        evse = net._EVSEs["PS-X"]
+    if mode == "mutated":
+        with warnings.catch_warnings():
+            warnings.simplefilter("ignore")
+            iface0 = Interface(Simulator(net, None, EventQueue(), S.START, verbose=False))
+            info0 = iface0.infrastructure_info()
+            for arr in (info0.max_pilot, info0.min_pilot, info0.voltages, info0.phases):
+                arr[...] = 1.5
+            for arr in info0.allowable_pilots:
+                try:
+                    arr[...] = 1.5
+                except TypeError:
+                    for q in range(len(arr)):
+                        arr[q] = 1.5
+            for sid in net.station_ids:
+                _, lst = iface0.allowable_pilot_signals(sid)
+                for q in range(len(lst)):
+                    lst[q] = 1.5
     i = net.station_ids.index("PS-X")
     out.append(("network.max_pilot_signals", net.max_pilot_signals[i]))
     out.append(("network.min_pilot_signals", net.min_pilot_signals[i]))
@@ -348,6 +380,7 @@ def execute(item, only=None):
                 orig = build(kind, p)
                 twin = type(orig).from_json(orig.to_json())
             except Exception as exc:
+                guard(exc)
                 twin = None
                 if not any(not math.isfinite(v) for iv in ivs for v in iv):
                     rep("%s:json:exception" % kind, "%s: to_json/from_json raised %r" % (cfg, exc), repr(exc), None, {"json": True})
@@ -374,10 +407,19 @@ def execute(item, only=None):
                         rep("%s:json:%s" % (kind, "accepted-outside" if acc2 else "rejected-inside"), "%s: the re-loaded EVSE %s pilot %r (distance %.3g from the allowable set)" % (cfg, "accepts" if acc2 else "rejects", pilot, d), acc2, d <= 1e-3, {"json": True})
                         break
     # ---- advertisements ------------------------------------------------------------
-    if only is None or only.get("adv"):
-        adv, flags = advertised(kind, p)
+    finite_ends = not any(not math.isfinite(v) for iv in ivs for v in iv)
+    for mode in ("direct", "json", "mutated"):
+      if (only is None or only.get("adv") == mode or (only.get("adv") is True and mode == "direct")) and (mode != "json" or finite_ends):
+        sfx = {"direct": "", "json": ":network-json", "mutated": ":after-caller-mutation"}[mode]
+        tag = kind + sfx
+        try:
+            adv, flags = advertised(kind, p, mode)
+        except Exception as exc:
+            guard(exc)
+            rep("%s:advertisement-exception" % tag, "%s: asking for the advertisements raised %r" % (cfg, exc), repr(exc), None, {"adv": mode})
+            continue
         if len(set(flags.values())) != 1 or flags["evse"] != (kind != "fin"):
-            rep("%s:continuity-flag" % kind, "%s: is_continuous advertised as %s" % (cfg, flags), flags, kind != "fin", {"adv": True})
+            rep("%s:continuity-flag" % tag, "%s: is_continuous advertised as %s" % (cfg, flags), flags, kind != "fin", {"adv": mode})
         for src, v in adv:
             v = float(v)
             stats["probes"] += 1
@@ -386,18 +428,18 @@ def execute(item, only=None):
                     continue
                 acc_, _, after, exc, _ = probe(kind, p, v, occ, "set_pilot")
                 if not acc_:
-                    rep("%s:advertised-value-rejected:%s" % (kind, src.split(".")[-1]), "%s: %s advertises %r which set_pilot rejects (%s)" % (cfg, src, v, exc), False, True, {"adv": True})
+                    rep("%s:advertised-value-rejected:%s" % (tag, src.split(".")[-1]), "%s: %s advertises %r which set_pilot rejects (%s)" % (cfg, src, v, exc), False, True, {"adv": mode})
         # advertised sets are complete: max = sup of the allowable set, finite lists = the normalised list
         sup = max(hi for lo, hi in ivs)
         vals = {s: [float(v) for s2, v in adv if s2 == s] for s in {a for a, _ in adv}}
         for src in ("evse.max_rate", "network.max_pilot_signals", "interface.max_pilot_signal", "infrastructure_info.max_pilot"):
             if vals[src][0] != sup:
-                rep("%s:advertised-max-wrong" % kind, "%s: %s = %r but the largest allowable pilot is %r" % (cfg, src, vals[src][0], sup), vals[src][0], sup, {"adv": True})
+                rep("%s:advertised-max-wrong" % tag, "%s: %s = %r but the largest allowable pilot is %r" % (cfg, src, vals[src][0], sup), vals[src][0], sup, {"adv": mode})
         if kind == "fin":
             want_list = [lo for lo, _ in ivs]
             for src in ("evse.allowable_pilot_signals", "network.allowable_rates", "interface.allowable_pilot_signals", "infrastructure_info.allowable_pilots"):
                 if vals[src] != want_list:
-                    rep("fin:advertised-list-wrong", "%s: %s = %r, normalised list is %r" % (cfg, src, vals[src], want_list), vals[src], want_list, {"adv": True})
+                    rep("fin%s:advertised-list-wrong" % sfx, "%s: %s = %r, normalised list is %r" % (cfg, src, vals[src], want_list), vals[src], want_list, {"adv": mode})
             pos = [x for x in want_list if x > 0]
             want_min = min(pos) if pos else 0.0
         elif kind == "dead":
@@ -407,29 +449,32 @@ def execute(item, only=None):
         for src in ("evse.min_rate", "network.min_pilot_signals", "interface.min_pilot_signal", "infrastructure_info.min_pilot"):
             if want_min is None:
                 if vals[src][0] not in (0.0, float(p["end"])):
-                    rep("dead:advertised-min-wrong", "%s: %s = %r is neither 0 nor the deadband end" % (cfg, src, vals[src][0]), vals[src][0], [0.0, float(p["end"])], {"adv": True})
+                    rep("dead%s:advertised-min-wrong" % sfx, "%s: %s = %r is neither 0 nor the deadband end" % (cfg, src, vals[src][0]), vals[src][0], [0.0, float(p["end"])], {"adv": mode})
             elif vals[src][0] != want_min:
-                rep("%s:advertised-min-wrong" % kind, "%s: %s = %r, smallest non-zero allowable pilot is %r" % (cfg, src, vals[src][0], want_min), vals[src][0], want_min, {"adv": True})
+                rep("%s:advertised-min-wrong" % tag, "%s: %s = %r, smallest non-zero allowable pilot is %r" % (cfg, src, vals[src][0], want_min), vals[src][0], want_min, {"adv": mode})
     # ---- plugging into an occupied station -------------------------------------------
     if only is None or only.get("plug"):
-        for via, same_id in (("evse", False), ("network", False), ("evse", True), ("network", True)):
+        # the newcomer's stay overlaps the occupant's (0..10), starts exactly at the occupant's departure, or after it:
+        # as long as the occupant has not been unplugged the station is occupied
+        for via, same_id, (arr, dep) in [(v, sid, t) for v in ("evse", "network") for sid in (False, True) for t in ((0, 9), (10, 15), (12, 20))]:
             evse = build(kind, p)
             net = ChargingNetwork()
             net.register_evse(evse, 208, 0)
             first = mk_ev()
             first.charge(4.0, 208, 5)  # the occupant has a history that a replacement would lose
             # the newcomer is another session - or another OBJECT carrying the occupant's session id
-            second = EV(0, 9, 5.0, "PS-X", "sess-1" if same_id else "sess-2", Battery(20.0, 1.0, 7.0))
+            second = EV(arr, dep, 5.0, "PS-X", "sess-1" if same_id else "sess-2", Battery(20.0, 1.0, 7.0))
             (evse.plugin if via == "evse" else net.plugin)(first)
             st0 = ev_state(first)
             stats["probes"] += 1
             try:
                 (evse.plugin if via == "evse" else net.plugin)(second)
-                rep("plugin:occupied-accepted:%s%s" % (via, ":same-session-id" if same_id else ""), "%s: second plug-in accepted (occupant is %s the original object)" % (cfg, "still" if evse.ev is first else "no longer"), getattr(evse.ev, "session_id", None), "StationOccupiedError", {"plug": True})
+                rep("plugin:occupied-accepted:%s%s%s" % (via, ":same-session-id" if same_id else "", ":arrival>=occupant-departure" if arr >= 10 else ""), "%s: second plug-in accepted (occupant is %s the original object)" % (cfg, "still" if evse.ev is first else "no longer"), getattr(evse.ev, "session_id", None), "StationOccupiedError", {"plug": True})
             except StationOccupiedError:
                 if evse.ev is not first or ev_state(first) != st0 or net.get_ev("PS-X") is not first:
                     rep("plugin:occupant-replaced:%s" % via, "%s: refused plug-in replaced/altered the occupant (now %s)" % (cfg, getattr(evse.ev, "session_id", None)), getattr(evse.ev, "session_id", None), "sess-1", {"plug": True})
             except Exception as exc:
+                guard(exc)
                 rep("plugin:wrong-exception:%s" % via, "%s: second plug-in raised %r" % (cfg, exc), repr(exc), "StationOccupiedError", {"plug": True})
             # unplug resets pilot and vacates; the station is usable again
             evse.unplug()
